@@ -151,11 +151,13 @@ Print Assumptions C07_masked_copy_is_selection.
 
 (* ------------------------------------------------------------------ pad_reject *)
 Theorem C07_pad_reject : forall n k a v,
-  (length v < n -> format_length n k a v = Ok (v ++ repeat (ndv k) (n - length v))) /\
+  (k <> KText -> length v < n -> format_length n k a v = Ok (v ++ repeat (ndv k) (n - length v))) /\
   (length v = n -> format_length n k a v = Ok v) /\
-  (n < length v -> a <> AObject -> format_length n k a v = Err ValueError).
+  (n < length v -> a <> AObject -> format_length n k a v = Err ValueError) /\
+  (length v < n -> format_length n KText a v = Ok v).       (* text data are stored unpadded *)
 Proof.
-  intros n k a v. split; [apply format_length_pad|]. split; [apply format_length_eq|apply format_length_reject].
+  intros n k a v. split; [apply format_length_pad|]. split; [apply format_length_eq|].
+  split; [apply format_length_reject|apply format_length_text_short].
 Qed.
 Print Assumptions C07_pad_reject.
 
